@@ -749,7 +749,7 @@ Ltac co_obj K Xe Ha Hs :=
   case_if; nat_eqs; subst; red_rec; rewrite ?Ha, ?Hs in *; split7; try assumption; try (parts; fin; fail);
   try (unfold F_ok in *; fin; fail).
 
-Lemma ev_set_inv s t o r s' : Inv s -> step_g true s (ESet t o r) = Some s' -> Inv s'.
+Lemma ev_set_inv s t o r s' sw : Inv s -> step_g true sw s (ESet t o r) = Some s' -> Inv s'.
 Proof.
   intros I H. simpl in H. destruct (nth_error (objs s) o) as [ob|] eqn:Ho; try discriminate.
   destruct (oprod ob) eqn:Hp; try discriminate. destruct (oslot ob) eqn:Hsl; try discriminate.
@@ -760,7 +760,7 @@ Proof.
   - apply obj_ok_slot. eapply inv_obj; eauto.
 Qed.
 
-Lemma ev_spawn_inv s t c s' : Inv s -> step_g true s (ESpawn t c) = Some s' -> Inv s'.
+Lemma ev_spawn_inv s t c s' sw : Inv s -> step_g true sw s (ESpawn t c) = Some s' -> Inv s'.
 Proof.
   intros I H. simpl in H. destruct (nth_error (cos s) c) as [co|] eqn:Hc; try discriminate.
   destruct (cst co) eqn:Hs; try discriminate.
@@ -771,7 +771,7 @@ Proof.
   destruct (capt co) eqn:Ha; co_solve K Ha Hs.
 Qed.
 
-Lemma ev_local_inv s t c s' : Inv s -> step_g true s (ELocal t c) = Some s' -> Inv s'.
+Lemma ev_local_inv s t c s' sw : Inv s -> step_g true sw s (ELocal t c) = Some s' -> Inv s'.
 Proof.
   intros I H. simpl in H. destruct (nth_error (cos s) c) as [co|] eqn:Hc; try discriminate.
   match type of H with (if ?b then _ else _) = _ => destruct b eqn:G; try discriminate end.
@@ -780,7 +780,7 @@ Proof.
   destruct (cst co) eqn:Hs; try discriminate; destruct (capt co) eqn:Ha; co_solve K Ha Hs.
 Qed.
 
-Lemma ev_free_inv s t c s' : Inv s -> step_g true s (EFree t c) = Some s' -> Inv s'.
+Lemma ev_free_inv s t c s' sw : Inv s -> step_g true sw s (EFree t c) = Some s' -> Inv s'.
 Proof.
   intros I H. simpl in H. destruct (nth_error (cos s) c) as [co|] eqn:Hc; try discriminate.
   destruct (cst co) eqn:Hs; try discriminate.
@@ -790,7 +790,7 @@ Proof.
   destruct (capt co) eqn:Ha; co_solve K Ha Hs.
 Qed.
 
-Lemma ev_ret_inv s t c r s' : Inv s -> step_g true s (ERet t c r) = Some s' -> Inv s'.
+Lemma ev_ret_inv s t c r s' sw : Inv s -> step_g true sw s (ERet t c r) = Some s' -> Inv s'.
 Proof.
   intros I H. simpl in H. destruct (nth_error (cos s) c) as [co|] eqn:Hc; try discriminate.
   destruct (cst co) eqn:Hs; try discriminate. destruct (capt co) eqn:Ha; try discriminate.
